@@ -1208,7 +1208,7 @@ class _IODict(object):
 
     def __setitem__(self, name, value):
         oval = self._outputs[name]
-        if oval.shape == ():
+        if np.ndim(oval) == 0:
             self._outputs[name] = np.squeeze(value)
         else:
             try:
